@@ -337,13 +337,18 @@ def checkC11 (b : Book) (_ : Unit) : SEv → Unit × Option String
 
 def monC11 (limit : Option Nat) (evs : List SEv) : Mon Unit := Mon.run limit checkC11 () evs
 
-def checkC10 (b : Book) (_ : Unit) : SEv → Unit × Option String
+/-- State: number of items written to the sink and not yet covered by a completed flush. -/
+def checkC10 (b : Book) (unflushed : Nat) : SEv → Nat × Option String
+  | .obs (.tSend _ _ true) => (unflushed + 1, none)
+  | .obs (.tFlush _ .ready) => (0, none)
   | .obs (.ret (.server _) .readyNone) =>
-      if !b.eofSeen then ((), some "request stream ended although the inbound side had not ended")
-      else ((), none)
-  | _ => ((), none)
+      if !b.eofSeen then (unflushed, some "request stream ended although the inbound side had not ended")
+      else if unflushed != 0 then
+        (unflushed, some s!"request stream ended with {unflushed} written response(s) not yet flushed")
+      else (unflushed, none)
+  | _ => (unflushed, none)
 
-def monC10 (limit : Option Nat) (evs : List SEv) : Mon Unit := Mon.run limit checkC10 () evs
+def monC10 (limit : Option Nat) (evs : List SEv) : Mon Nat := Mon.run limit checkC10 0 evs
 
 /-! ### C12 — per-channel request limit throttles exactly the excess -/
 
